@@ -1,9 +1,19 @@
 #!/bin/bash
-# run every claimed check (quick) and print the summary line of each
+# run every claimed check and print the summary line of each
+# usage: tools/run_all.sh [quick|thorough] [parallel jobs, default 1]
+# (checks of different properties may run side by side: lake builds take a lock, every property
+#  has its own generated files, driver and run lock)
 cd "$(dirname "$0")/.."
 tier=${1:-quick}
-for id in $(python3 -c "import json;print(' '.join(c['property_id'] for c in json.load(open('MANIFEST.json'))['checks']))"); do
+jobs=${2:-1}
+one() {
+  id=$1; tier=$2
   out=$(./check $id --tier $tier 2>&1); rc=$?
-  echo "$(echo "$out" | grep "^\[$id\]" | tail -1) rc=$rc"
-  echo "$out" | grep "^VIOLATION\|no longer checks\|  -> " | head -5
-done
+  {
+    echo "$(echo "$out" | grep "^\[$id\]" | tail -1) rc=$rc"
+    echo "$out" | grep "^VIOLATION\|no longer checks\|  -> " | head -5
+  }
+}
+export -f one
+python3 -c "import json;print('\n'.join(c['property_id'] for c in json.load(open('MANIFEST.json'))['checks']))" \
+  | xargs -P "$jobs" -I{} bash -c "one {} $tier"
